@@ -144,6 +144,9 @@ func (fc *FnCtx) addrBase(a *Addr) (name string, idx []string) {
 		if a.Idx != "" {
 			idx = []string{a.Idx}
 		}
+		if !fc.eng.mutableGlobal[a.Global] {
+			fc.immut["G$"+sanitize(a.Global.Pkg.Pkg.Name()+"."+a.Global.Name())+"$"] = true
+		}
 	default:
 		panic("addrBase: bad kind")
 	}
@@ -194,6 +197,9 @@ func buildVal(t types.Type, suffix string, leaf leafFn) Val {
 		ref := leaf(suffix, "Int", t)
 		if structOf(pt.Elem()) != nil {
 			return Val{K: KAddr, T: t, A: &Addr{Kind: AObj, Base: ref, Root: pt.Elem(), T: pt.Elem()}}
+		}
+		if arr, ok := pt.Elem().Underlying().(*types.Array); ok {
+			return Val{K: KAddr, T: t, A: &Addr{Kind: AElem, Base: ref, Idx: "", ElemT: arr.Elem(), T: pt.Elem()}}
 		}
 		return Val{K: KAddr, T: t, A: &Addr{Kind: AOpaque, Base: ref, T: pt.Elem()}}
 	case KStruct:
@@ -261,4 +267,12 @@ func sortedKeys(m map[string]string) []string {
 	}
 	sort.Strings(ks)
 	return ks
+}
+
+// lname joins a heap-name base and a leaf suffix canonically.
+func lname(base, suffix string) string {
+	if strings.HasSuffix(base, "$") && strings.HasPrefix(suffix, ".") {
+		return base + suffix[1:]
+	}
+	return base + suffix
 }
